@@ -106,6 +106,11 @@ def main(argv):
             rep.violation(f'two process() results with the same declarations compare unequal (==): results {neq[0]} of the history',
                           {'history': h, 'pairs': neq})
             continue
+        if r['ok'].get('files_left_open') and nv < 4:
+            nv += 1
+            rep.violation(f'{r["ok"]["files_left_open"]} file(s) are still open after a history with {r["ok"]["failed_loads_kept"]} failed load(s) whose errors the caller kept: '
+                          'every further failure uses up a file descriptor, until a later, unrelated parse fails for lack of them', {'history': h})
+            continue
         bad_loads = [oi for oi, op in enumerate(h) if op[0] == 'load_bad' and res[oi] and res[oi][0] != 'load-raised']
         if bad_loads and nv < 4:
             nv += 1
